@@ -493,6 +493,8 @@ func searchFragRound2(rng *hx.Rng, n int) {
 			fm.FragEncMode, fl.FragEncMode = mode, mode
 			evals++
 			a, b := encodeFile(fm), encodeFile(fl)
+			checkEncodeSW(w, mode, fm, a, "in-memory") // sw.go
+			checkEncodeSW(w, mode, fl, b, "lazy")
 			if !strings.HasPrefix(a, "o:") || !strings.HasPrefix(b, "o:") {
 				if a != b {
 					fail("File.Encode(lazy)", "encode-outcome-differs", w, fmt.Sprintf("mode %d: in memory %s lazy %s", mode, clip(a), clip(b)))
